@@ -209,13 +209,20 @@ def compare_parameters(ref, model, res):
             continue
         inits = model.parameters.inits
         bad = []
+        undecided = None
         for k, (d, b) in enumerate(zip(rvs, blocks)):
             var = d.variance
             n = len(d.names)
             for r in range(n):
                 for c in range(n):
                     e = var if n == 1 else var[r, c]
-                    val = float(sympy.sympify(e).subs({sympy.Symbol(s): v for s, v in inits.items()}))
+                    try:
+                        val = float(sympy.sympify(e).subs({sympy.Symbol(s): v for s, v in inits.items()}))
+                    except TypeError:
+                        # a (co)variance that is not a number under the initial estimates (an expression over something
+                        # else than parameters): not comparable with the number of the record; reported as undecided
+                        undecided = str(e)
+                        continue
                     if not _feq(val, b['matrix'][r][c], 1e-12):
                         bad.append(dict(block=k, entry=(r, c), pharmpy=val, reference=b['matrix'][r][c]))
             syms = {str(s) for s in (sympy.sympify(var).free_symbols if n == 1 else
@@ -224,7 +231,10 @@ def compare_parameters(ref, model, res):
             fixes = {model.parameters[s].fix for s in syms if s in model.parameters}
             if fixes and (all(fixes) != bool(b['fix'])) and len(fixes) == 1:
                 bad.append(dict(block=k, fix_pharmpy=sorted(fixes), fix_reference=b['fix']))
-        res.append((f'{kind}_values', 'violated' if bad else 'discharged', dict(mismatch=bad[:6]) if bad else None))
+        if undecided is not None and not bad:
+            res.append((f'{kind}_values', 'inconclusive', dict(reason=f'variance {undecided} is not numeric under the inits')))
+        else:
+            res.append((f'{kind}_values', 'violated' if bad else 'discharged', dict(mismatch=bad[:6]) if bad else None))
 
 
 def compare(text, model, timeout_ms=15000, skip=()):
